@@ -211,7 +211,7 @@ Section Sim.
       cbn. destruct sk; cbn; [repeat split; exact P|]. repeat split; exact P.
     - cbn. repeat split; exact P.
     - (* table *)
-      destruct rows as [|head body]; cbn; [reflexivity|].
+      cbv zeta. destruct rows as [|head body]; cbn; [reflexivity|].
       destruct (render_row refdefs head cu) as [h c1]. destruct (render_rows refdefs body c1) as [bb c2].
       cbn. repeat split; exact P.
     - cbn. repeat split; exact P.
